@@ -96,6 +96,7 @@ class Module:
         self.funcs = {}
         self.meta = {}
         self.path = None
+        self.globals = {}  # name -> bytes of a c"..." initialiser (string constants only)
 
     def loc_chain(self, dbg):
         """-> [(file, line)] from innermost to outermost (inlinedAt chain)."""
@@ -213,18 +214,39 @@ def parse_module(path, only=None):
             if m:
                 mod.meta[m.group(1)] = m.group(2)
             continue
+        if ln.startswith("@"):
+            gm = re.match(r'^@("?[\w.$]+"?) = .*? c"((?:[^"\\]|\\[0-9A-Fa-f]{2})*)"', ln)
+            if gm:
+                raw = gm.group(2)
+                out = bytearray()
+                i = 0
+                while i < len(raw):
+                    if raw[i] == "\\":
+                        out.append(int(raw[i + 1:i + 3], 16))
+                        i += 3
+                    else:
+                        out.append(ord(raw[i]))
+                        i += 1
+                mod.globals[gm.group(1).strip('"')] = bytes(out)
+            continue
         if ln.startswith("define "):
-            m = re.match(r"^define .*?(%s|%%[\w.\":]+\*?|\{[^}]*\}) @([\w.$]+)\((.*?)\)(?: [^{]*)?\{\s*$" % _TY, ln)
-            if not m:
+            m = re.match(r"^define .*?(%s|%%[\w.\":]+\*?|\{[^}]*\}) @([\w.$]+)\(" % _TY, ln)
+            if not m or not ln.rstrip().endswith("{"):
                 cur = None
                 continue
+            # balanced scan for the parameter list (attributes such as dereferenceable(8) nest)
+            depth, j = 1, m.end()
+            while j < len(ln) and depth:
+                depth += {"(": 1, ")": -1}.get(ln[j], 0)
+                j += 1
+            plist = ln[m.end():j - 1]
             name = m.group(2)
             if only is not None and not only(name):
                 cur = None
                 continue
             cur = Func(name)
             cur.ret_ty = m.group(1)
-            ps = m.group(3).strip()
+            ps = plist.strip()
             if ps:
                 for p in _split_top(ps):
                     pm = re.match(r"^(%s)\s+(.*?)%%([\w.]+)$" % _TY, p.strip())
@@ -261,7 +283,18 @@ def parse_module(path, only=None):
             cur.blocks[curblock] = []
             cur.order.append(curblock)
             continue
-        ins = _parse_instr(s)
+        try:
+            ins = _parse_instr(s)
+        except AnalysisBroken as e:
+            ins = Instr()
+            ins.raw = s
+            ins.op = "unsupported"
+            ins.args = [str(e)]
+            m2 = re.match(r'^%("?[\w.$-]+"?) = ', s)
+            if m2:
+                ins.res = m2.group(1).strip('"')
+            if re.match(r"^(br|ret|switch|unreachable|invoke|resume)\b", s):
+                raise
         cur.blocks[curblock].append(ins)
     return mod
 
